@@ -1791,6 +1791,16 @@ def _i_checked_add(it, args, dty, func):
     return none()
 
 
+@model("std::time::Instant::saturating_duration_since", "tokio::time::Instant::saturating_duration_since",
+       "std::time::Instant::duration_since", "tokio::time::Instant::duration_since")
+def _instant_sat_since(it, args, dty, func):
+    a, b = _deref(args[0]).f[0], _deref(args[1]).f[0]
+    if isinstance(a, int) and isinstance(b, int):
+        return dur_ns(max(0, a - b))
+    A, B = bv(a, 128), bv(b, 128)
+    return dur_ns(simp(z3.If(z3.UGE(A, B), A - B, z3.BitVecVal(0, 128))))
+
+
 @trait_model(r"^(std|tokio)::time::Instant$", "Add", "add")
 def _i_add(it, args, dty, func):
     r = _i_checked_add(it, args, dty, func)
